@@ -72,12 +72,33 @@ void run_open_fail(RunCtx& cx, const Pass1& p1, unsigned fop) {
         model::MOutput old = p.M.out;
         bool threw = false;
         std::string what;
-        if (!fd) F.fopen_fail_k = F.fopen_w_calls + 1;
+        // named outputs: either the next open for writing fails once, or the '.part' name of the destination is unusable for good
+        // (a directory of that name, a stale '.part' of another owner) while the final name itself could be opened
+        const std::string final_name = std::string("/sim/unopenable") + p.ext;
+        const bool part_unusable = !fd && (mix64(cx.seed, 777) & 1);
+        const bool older_file = !fd && (mix64(cx.seed, 778) & 1);
+        const std::string older = "an intact older output under the final name";
+        if (older_file) F.put(final_name, older);
+        if (part_unusable) { F.unopenable.insert(final_name + ".part"); cx.tag("part-name-unusable"); }
+        else if (!fd) F.fopen_fail_k = F.fopen_w_calls + 1;
+        // C15: the final name of a destination whose '.part' could not be opened is never touched
+        bool c15_reported = false;
+        auto check_final = [&](const char* when) {
+            if (fd || c15_reported) return;
+            bool bad = older_file ? (!F.exists(final_name) || F.get(final_name) != older) : F.exists(final_name);
+            if (bad) {
+                c15_reported = true;
+                cx.violation("C15", std::string("C15/I14/final-name-written-although-part-unusable/") + (p.plan.sw.compression ? "compressed" : "plain"),
+                             final_name + (older_file ? " (an intact older output) was replaced or truncated " : " appeared ") + when + " although '" + final_name + ".part' could not be opened" +
+                                 (F.exists(final_name) ? " (" + std::to_string(F.get(final_name).size()) + " bytes)" : std::string()));
+            } else cx.ctr->add("probe.final_name_untouched_after_open_failure");
+        };
         try {
             if (fd) p.ex->rotate_output(-1, op.export_);
             else p.ex->rotate_output(std::string("/sim/unopenable"), op.export_);
         } catch (std::exception& e) { threw = true; what = e.what(); }
         F.fopen_fail_k = 0;
+        check_final("right after the failing rotate_output");
         cx.ctr->add("fault_fired.destination_cannot_be_opened");
         if (!threw) { V("C16", "I15/unopenable-destination-not-reported", "rotate_output returned normally although the new output could not be opened"); }
         if (op.export_) p.M.write_block();   // the export step precedes the rotation and met a healthy output
@@ -152,6 +173,7 @@ void run_open_fail(RunCtx& cx, const Pass1& p1, unsigned fop) {
             } catch (std::exception& e) { V("C16", "I16/recovered-file-invalid", std::string("after recovery: ") + e.what()); V("C13", "I12/output-after-open-failure-not-self-contained", e.what()); }
         }
         check_old("after the application carried on and recovered");
+        check_final("after the application carried on and recovered");
         cx.nontrivial = true;
         break;
     }
@@ -160,6 +182,185 @@ void run_open_fail(RunCtx& cx, const Pass1& p1, unsigned fop) {
     F.close_all_leaked();
     F.watcher = nullptr; F.log = nullptr;
     cx.state_key = std::string("openfail") + (fd ? "d" : "n") + std::to_string(p.plan.sw.compression) + ",";
+}
+// Scenario "the staging buffer is exactly full" (blocks of query/responses only): the encoder hands its 2048-byte staging buffer to the output only when the next
+// item does not fit, so the one write call that carries a whole buffer can be the one issued for the closing break (buffer full to
+// the last byte) or by the flush inside rotate_output (nearly full). A record is calibrated by trial runs so that the buffer holds
+// exactly `target` bytes when rotate_output is called; that write call then meets the fault. Expected: as (R) and (V) above.
+void run_full_buffer(RunCtx& cx) {
+    simfs::FS& F = simfs::fs();
+    Rng r(mix_str(cx.seed, "fullbuf") + cx.slot / 64);   // 64 (level, fault) combinations per scenario variant
+    gen::Swarm sw = gen::swarm(cx.seed, gen::P_FAULT);
+    sw.sets.resize(1);
+    sw.sets[0].storage_parameters.storage_hints = CDNS::StorageHints();
+    sw.sets[0].storage_parameters.max_block_items = 10000;
+    const uint64_t tps = sw.sets[0].storage_parameters.ticks_per_second;
+    const bool fd = r.chance(1, 2);
+    const unsigned prev_blocks = (unsigned)r.below(3), n_pre = (unsigned)r.below(4), n_pend = (unsigned)r.range(1, 3);
+    bool export_in_rotate = r.chance(1, 3);   // the block that fills the buffer is written by rotate_output(.., true) itself
+    std::vector<uint64_t> seeds;
+    for (int i = 0; i < 40; i++) seeds.push_back(r.next());
+    // this run's fault (slot) and target fill level
+    static const unsigned TARGETS[] = {2048, 2048, 2048, 2047, 2046, 2041, 2040, 2039};
+    const unsigned target = TARGETS[cx.slot % 8];
+    simfs::WFault::Kind kind = (simfs::WFault::Kind)((cx.slot / 8) % 4);
+    bool persist = ((cx.slot / 32) & 1) && kind != simfs::WFault::EINTR_;
+    cx.n_ops = 0;
+    cx.tag("staging-buffer-calibrated");
+    cx.tag(std::string("fault-") + kind_name(kind));
+    cx.tag(persist ? "persistent" : "once");
+    cx.tag(fd ? "fd" : "named");
+    std::string feat = std::string("/kind=") + (fd ? "fd" : "name") + "/plain/staging-buffer-full";
+    struct Out { size_t produced = 0, sink = 0; std::string old_raw, rec_raw; bool rotate_threw = false; std::string what; bool recovered = false; int attempts = 0; size_t pending_seen = 0; size_t rec_ret = 0; std::string rec_name; };
+    auto dest_data = [&](const std::string& nm) -> std::string {
+        if (fd) { auto ino = F.fd_inode(nm); return ino ? ino->data : std::string(); }
+        if (F.exists("/sim/" + nm)) return F.get("/sim/" + nm);
+        if (F.exists("/sim/" + nm + ".part")) return F.get("/sim/" + nm + ".part");
+        return std::string();
+    };
+    auto run = [&](size_t L, bool faulted, bool stop_before_rotate) -> Out {
+        Out o;
+        F.reset();
+        F.log = faulted ? &cx.log : nullptr;
+        F.ctr = faulted ? cx.ctr : nullptr;
+        std::vector<CDNS::BlockParameters> sets = sw.sets;
+        CDNS::FilePreamble fp(sets);
+        std::unique_ptr<CDNS::CdnsExporter> ex;
+        if (fd) ex.reset(new CDNS::CdnsExporter(fp, F.make_fd("fb0"), CDNS::CborOutputCompression::NO_COMPRESSION));
+        else ex.reset(new CDNS::CdnsExporter(fp, std::string("/sim/fb0"), CDNS::CborOutputCompression::NO_COMPRESSION));
+        unsigned si = 0;
+        try {
+            for (unsigned b = 0; b < prev_blocks; b++) {
+                for (unsigned q = 0; q < 1 + b; q++) { gen::RecGen g(sw, seeds[si++]); o.produced += ex->buffer_qr(g.qr(tps)); }
+                o.produced += ex->write_block();
+            }
+            for (unsigned q = 0; q < n_pre; q++) { gen::RecGen g(sw, seeds[si++]); o.produced += ex->buffer_qr(g.qr(tps)); }
+            {
+                // the last item the block writes is this record's country code (a text string copied straight into the staging
+                // buffer): the only way to fill the buffer beyond the 9 bytes the encoder keeps free for the next head
+                gen::RecGen g(sw, seeds[si++]);
+                CDNS::GenericQueryResponse rec = g.qr(tps);
+                rec.round_trip_time = boost::none;
+                rec.country_code = std::string(L, 'C');
+                o.produced += ex->buffer_qr(rec);
+            }
+            if (!export_in_rotate) {
+                o.produced += ex->write_block();
+                for (unsigned q = 0; q < n_pend; q++) {
+                    gen::RecGen g(sw, seeds[si++]);
+                    CDNS::GenericQueryResponse rec = g.qr(tps);
+                    rec.asn = "pending-" + std::to_string(q);
+                    o.produced += ex->buffer_qr(rec);
+                }
+            }
+            o.sink = dest_data("fb0").size();
+            if (stop_before_rotate && !export_in_rotate) { ex.reset(); F.close_all_leaked(); return o; }
+            if (faulted) {
+                simfs::WFault wf;
+                wf.kind = kind;
+                wf.dest = fd ? "fd:fb0" : "/sim/fb0.part";
+                unsigned calls = 0;
+                for (auto& kv : F.open_files) if (kv.second.path == wf.dest) calls = kv.second.wcalls;
+                wf.k = calls + 1;
+                wf.persist = persist;
+                wf.short_pm = 500;
+                F.wfaults.push_back(wf);
+                cx.log.ev("ARM-FAULT " + wf.dest + " k=" + std::to_string(wf.k));
+            }
+            // ---- the rotation that closes fb0 -------------------------------------------------------------------------
+            for (o.attempts = 0; o.attempts < 3 && !o.recovered; o.attempts++) {
+                o.rec_name = "fbrec" + std::to_string(o.attempts);
+                try {
+                    size_t w;
+                    if (fd) w = ex->rotate_output(F.make_fd(o.rec_name), export_in_rotate && o.attempts == 0);
+                    else w = ex->rotate_output(std::string("/sim/" + o.rec_name), export_in_rotate && o.attempts == 0);
+                    if (o.attempts == 0) o.produced += w;
+                    o.recovered = true;
+                } catch (std::exception& e) {
+                    if (!o.rotate_threw) o.what = e.what();
+                    o.rotate_threw = true;
+                    if (faulted) cx.log.ev(std::string("ROTATE-THREW ") + e.what());
+                }
+            }
+            o.old_raw = dest_data("fb0");
+            if (o.recovered) {
+                o.pending_seen = ex->get_block_item_count();
+                o.rec_ret = ex->write_block();
+                if (fd) ex->rotate_output(F.make_fd("fbend"), false); else ex->rotate_output(std::string("/sim/fbend"), false);
+                o.rec_raw = dest_data(o.rec_name);
+            }
+        } catch (std::exception& e) {
+            if (o.what.empty()) o.what = std::string("unexpected: ") + e.what();
+            o.rotate_threw = true;
+            if (faulted) cx.log.ev(std::string("THREW ") + e.what());
+        }
+        try { ex.reset(); } catch (...) {}
+        F.close_all_leaked();
+        return o;
+    };
+    // ---- calibration: payload length such that the staging buffer holds exactly `target` bytes at the rotation --------------------
+    // (with export_in_rotate the level is that after the exporter has written the block, i.e. total bytes produced before the
+    //  closing break minus what reached the output — measured on a run that stops after an explicit write_block())
+    size_t L = 64 + (size_t)r.below(64);
+    bool calibrated = false;
+    {
+        bool saved = export_in_rotate;
+        for (int iter = 0; iter < 12 && !calibrated; iter++) {
+            // measure with an explicit write_block() (same bytes as the export inside rotate_output)
+            export_in_rotate = false;
+            Out t = run(L, false, true);
+            export_in_rotate = saved;
+            size_t fill = t.produced - t.sink;
+            if (fill == target) { calibrated = true; break; }
+            long delta = (long)target - (long)fill;
+            if (delta < 0) delta += 2048;
+            L += (size_t)delta;
+            if (L > 9000) L = 64 + (L % 2048);
+        }
+    }
+    if (!calibrated) { cx.ctr->add("full_buffer_calibration_failed"); F.reset(); F.log = nullptr; return; }
+    cx.ctr->add("probe.staging_buffer_level_" + std::to_string(target));
+    if (cx.describe)
+        cx.description = std::string("plain ") + (fd ? "descriptor" : "named") + " output, " + std::to_string(prev_blocks) + " earlier blocks, then a block whose last record carries a country code of " + std::to_string(L) +
+                         " bytes leaves exactly " + std::to_string(target) + " bytes in the encoder's staging buffer; " + (export_in_rotate ? "rotate_output(new, true)" : "write_block(), " + std::to_string(n_pend) + " records buffered, rotate_output(new, false)") +
+                         " || FAULT " + kind_name(kind) + (persist ? " persistent" : " once") + " at the next write call on the output";
+    Out ref0 = run(L, false, false);
+    if (!ref0.recovered || ref0.rotate_threw) { cx.ctr->add("scenarios_skipped_faultfree_pass_threw"); F.reset(); F.log = nullptr; return; }
+    cx.log.ev("FULLBUF target " + std::to_string(target) + " L " + std::to_string(L) + " old " + std::to_string(ref0.old_raw.size()) + " rec " + std::to_string(ref0.rec_raw.size()));
+    Out got = run(L, true, false);
+    auto V = [&](const std::string& prop, const std::string& cls, const std::string& d) {
+        cx.violation(prop, prop + "/" + cls + feat, d + " [staging buffer holds " + std::to_string(target) + " bytes at rotate_output; fault: " + kind_name(kind) + (persist ? " persistent" : " once") + " at the next write call]");
+    };
+    bool lost = got.old_raw != ref0.old_raw;
+    if (lost) cx.ctr->add("probe.full_buffer_write_lost");
+    // (R)
+    if (lost && !got.rotate_threw) V("C16", "I15/unreported-loss", "rotate_output returned normally although the closed output holds " + std::to_string(got.old_raw.size()) + " of " + std::to_string(ref0.old_raw.size()) + " bytes");
+    // C15: a named output that lost bytes must not be visible under its final name
+    if (!fd && F.exists("/sim/fb0") && F.get("/sim/fb0") != ref0.old_raw)
+        cx.violation("C15", "C15/I14/incomplete-file-under-final-name/plain", "/sim/fb0 is visible under its final name with " + std::to_string(F.get("/sim/fb0").size()) + " bytes although the complete output has " +
+                                                                                  std::to_string(ref0.old_raw.size()) + " [staging buffer full at rotate_output; fault: " + kind_name(kind) + (persist ? " persistent" : " once") + "]");
+    // (V)
+    if (got.rotate_threw) {
+        cx.ctr->add("exceptions_delivered");
+        if (!got.recovered) V("C16", "I16/rotation-does-not-recover", "rotate_output to healthy destinations threw three times in a row ('" + got.what + "')");
+        else {
+            if (!export_in_rotate && got.pending_seen != ref0.pending_seen) V("C16", "I16/pending-not-buffered", "after the failed rotation the exporter holds " + std::to_string(got.pending_seen) + " items, fault-free " + std::to_string(ref0.pending_seen));
+            if (!export_in_rotate) {
+                try {
+                    ref::RFile a = ref::Interp::file(got.rec_raw), b = ref::Interp::file(ref0.rec_raw);
+                    bool same = a.blocks.size() == b.blocks.size();
+                    for (size_t i = 0; same && i < a.blocks.size(); i++) same = a.blocks[i].qr == b.blocks[i].qr && a.blocks[i].mm == b.blocks[i].mm;
+                    if (!same) V("C16", "I16/recovered-file-content", "the file written after recovery does not hold the records that were buffered");
+                    else cx.ctr->add("probe.recovery_after_full_buffer_fault_completed");
+                } catch (std::exception& e) { V("C16", "I16/recovered-file-invalid", std::string("the file written after recovery: ") + e.what()); }
+            }
+        }
+    } else if (!lost) cx.ctr->add("probe.fault_absorbed_without_loss");
+    cx.nontrivial = true;
+    cx.state_key = std::string("fullbuf") + (fd ? "d" : "n") + std::to_string(target) + kind_name(kind) + (persist ? "p" : "o") + ",";
+    F.reset();
+    F.log = nullptr;
+    F.ctr = nullptr;
 }
 }  // namespace
 
@@ -173,6 +374,8 @@ void sim::engine_fault(RunCtx& cx) {
 }
 
 static void engine_fault_impl(RunCtx& cx) {
+    // one scenario in five is the calibrated "staging buffer exactly full at rotate_output" scenario
+    if (mix_str(cx.seed, "scenario-kind") % 5 == 0) { run_full_buffer(cx); return; }
     Counters scratch_ctr;
     // ---- pass 1: fault-free ----------------------------------------------------------------------
     Pass1 p1;
